@@ -456,3 +456,148 @@ Proof.
   split; [|eexists; split; [reflexivity|exact Hout]].
   unfold entry_key. rewrite keys_app, keys_built, (out_keys _ _ Hout), app_nil_r. reflexivity.
 Qed.
+
+(* ---------------------------------------------------------------- Paragraph::wrap_and_sort on a token paragraph *)
+(* the children of a paragraph read without errors: entries (of tokens), and comment lines -- a
+   COMMENT token and the NEWLINE token that ends it *)
+Definition loose (c : tree) : bool := match c with Tok COMMENT _ | Tok NEWLINE _ => true | _ => false end.
+Definition entry_ok (ind : indentation) (c : tree) : bool :=
+  token_entry c && negb (entry_n ind (children c) =? 0)%N.
+Definition pchild_ok (ind : indentation) (c : tree) : bool := loose c || entry_ok ind c.
+
+(* every entry with the loose tokens in front of it; the loose tokens after the last entry *)
+Fixpoint p_groups (cs : list tree) (cur : list tree) : list (list tree * tree) * list tree :=
+  match cs with
+  | [] => ([], cur)
+  | c :: r => if loose c then p_groups r (cur ++ [c])
+              else let '(gs, tr) := p_groups r [] in ((cur, c) :: gs, tr)
+  end.
+Definition p_ungroup (gs : list (list tree * tree)) (tr : list tree) : list tree :=
+  concat (map (fun g => fst g ++ [snd g]) gs) ++ tr.
+Definition e_out (ind : indentation) (iel : bool) (mll : option N) (e : tree) : tree := entry_out ind iel mll (children e).
+(* what Paragraph::wrap_and_sort makes of the children: groups sorted stably as units, entries rebuilt *)
+Definition p_out (ind : indentation) (iel : bool) (mll : option N) (esort : option (tree -> tree -> comparison)) (cs : list tree) : list tree :=
+  p_ungroup (map (fun g => (fst g, e_out ind iel mll (snd g))) (sort_opt (option_map on_snd esort) (fst (p_groups cs [])))) (snd (p_groups cs [])).
+
+Lemma entry_ok_shape ind c : entry_ok ind c = true ->
+  exists cs, c = Node ENTRY cs /\ forallb is_tok_elem cs = true /\ (entry_n ind cs =? 0)%N = false.
+Proof.
+  unfold entry_ok, token_entry. intros H. apply andb_true_iff in H. destruct H as [H1 H2]. destruct c as [|k cs]; [discriminate|].
+  destruct k; try discriminate. exists cs. split; [reflexivity|]. split; [exact H1|]. apply negb_true_iff in H2. exact H2.
+Qed.
+
+Lemma pws_scan_tok ind cs : forall cur acc, forallb (pchild_ok ind) cs = true ->
+  pws_scan fixed cs cur acc = Ok (acc ++ fst (p_groups cs cur), snd (p_groups cs cur)).
+Proof.
+  induction cs as [|c r IH]; intros cur acc H.
+  - cbn [pws_scan p_groups fst snd]. rewrite app_nil_r. reflexivity.
+  - cbn [forallb] in H. apply andb_true_iff in H. destruct H as [Hc Hr]. cbn [p_groups].
+    destruct (loose c) eqn:El.
+    + destruct c as [k s|]; [|discriminate]. destruct k; try discriminate; cbn [pws_scan ekind v_para_nl fixed]; apply IH, Hr.
+    + unfold pchild_ok in Hc. rewrite El in Hc. cbn [orb] in Hc. destruct (entry_ok_shape ind c Hc) as (cs' & -> & _ & _).
+      cbn [pws_scan ekind is_node]. rewrite (IH [] _ Hr). destruct (p_groups r []) as [gs tr]. cbn [fst snd]. rewrite <- app_assoc. reflexivity.
+Qed.
+
+Lemma p_groups_props ind cs : forall cur, forallb (pchild_ok ind) cs = true -> forallb loose cur = true ->
+  (forall g, In g (fst (p_groups cs cur)) -> forallb loose (fst g) = true /\ entry_ok ind (snd g) = true /\ loose (snd g) = false) /\
+  forallb loose (snd (p_groups cs cur)) = true.
+Proof.
+  induction cs as [|c r IH]; intros cur H Hcur.
+  - cbn [p_groups fst snd]. split; [intros g []|exact Hcur].
+  - cbn [forallb] in H. apply andb_true_iff in H. destruct H as [Hc Hr]. cbn [p_groups]. destruct (loose c) eqn:El.
+    + apply IH; [exact Hr|]. rewrite forallb_app, Hcur. cbn [forallb]. rewrite El. reflexivity.
+    + unfold pchild_ok in Hc. rewrite El in Hc. cbn [orb] in Hc. specialize (IH [] Hr eq_refl).
+      destruct (p_groups r []) as [gs tr]. cbn [fst snd] in *. destruct IH as [IH1 IH2]. split; [|exact IH2].
+      intros g [<-|Hg]; [cbn [fst snd]; auto|apply IH1, Hg].
+Qed.
+
+Lemma res_map_emit_loose cs : forallb loose cs = true -> res_map emit_token cs = Ok cs.
+Proof.
+  intros H. apply res_map_id. intros x Hx. rewrite forallb_forall in H. specialize (H x Hx). destruct x; [reflexivity|discriminate].
+Qed.
+
+Theorem para_ws_tokens ind iel mll esort cs : forallb (pchild_ok ind) cs = true ->
+  para_ws fixed ind iel mll esort None (Node PARAGRAPH cs) = Ok (Node PARAGRAPH (p_out ind iel mll esort cs)).
+Proof.
+  intros H. unfold para_ws. cbn [children]. rewrite (pws_scan_tok ind cs [] [] H). cbn [bind app].
+  destruct (p_groups_props ind cs [] H eq_refl) as [Hg Htr]. unfold p_out.
+  destruct (p_groups cs []) as [gs tr]. cbn [fst snd] in *.
+  set (L := sort_opt (option_map on_snd esort) gs).
+  assert (HL : forall g, In g L -> forallb loose (fst g) = true /\ entry_ok ind (snd g) = true /\ loose (snd g) = false)
+    by (intros g Hin; apply Hg; apply (sort_opt_In _ _ _ Hin)).
+  rewrite (res_map_ok _ (fun g => fst g ++ [e_out ind iel mll (snd g)])).
+  - cbn [bind]. rewrite (res_map_emit_loose tr Htr). cbn [bind]. unfold p_ungroup. rewrite map_map. reflexivity.
+  - intros g Hin. destruct (HL g Hin) as (H1 & H2 & _). rewrite (res_map_emit_loose _ H1). cbn [bind].
+    destruct (entry_ok_shape ind (snd g) H2) as (cs' & E & Ht & Hn). rewrite E. rewrite (entry_ws_tokens ind iel mll cs' Ht Hn). reflexivity.
+Qed.
+
+(* ---- a second application changes nothing ---- *)
+Lemma p_groups_loose a : forall X cur, forallb loose a = true -> p_groups (a ++ X) cur = p_groups X (cur ++ a).
+Proof.
+  induction a as [|c r IH]; intros X cur H; [rewrite app_nil_r; reflexivity|]. cbn [forallb] in H. apply andb_true_iff in H. destruct H as [H1 H2].
+  cbn [app p_groups]. rewrite H1, (IH X _ H2), <- app_assoc. reflexivity.
+Qed.
+
+Definition group_ok (g : list tree * tree) : Prop := forallb loose (fst g) = true /\ loose (snd g) = false.
+
+Lemma p_groups_ungroup gs tr : forall cur, (forall g, In g gs -> group_ok g) -> forallb loose tr = true ->
+  p_groups (p_ungroup gs tr) cur =
+  match gs with [] => ([], cur ++ tr) | g :: r => ((cur ++ fst g, snd g) :: r, tr) end.
+Proof.
+  induction gs as [|g r IH]; intros cur Hg Htr.
+  - unfold p_ungroup. cbn [map concat app]. pose proof (p_groups_loose tr [] cur Htr) as E. rewrite app_nil_r in E. rewrite E. reflexivity.
+  - destruct (Hg g (or_introl eq_refl)) as [H1 H2].
+    assert (E : p_ungroup (g :: r) tr = fst g ++ snd g :: p_ungroup r tr).
+    { unfold p_ungroup. cbn [map concat]. rewrite <- !app_assoc. reflexivity. }
+    rewrite E, (p_groups_loose (fst g) _ cur H1). cbn [p_groups]. rewrite H2.
+    rewrite (IH [] (fun y Hy => Hg y (or_intror Hy)) Htr). destruct r as [|g2 r2]; [reflexivity|]. destruct g2; reflexivity.
+Qed.
+
+Lemma e_out_idem ind iel mll e : entry_ok ind e = true ->
+  entry_ok ind (e_out ind iel mll e) = true /\ e_out ind iel mll (e_out ind iel mll e) = e_out ind iel mll e.
+Proof.
+  intros H. destruct (entry_ok_shape ind e H) as (cs & -> & Ht & Hn). unfold e_out. cbn [children].
+  destruct (entry_out_idem ind iel mll cs Ht) as (A & B & C). split; [|exact C].
+  unfold entry_ok. rewrite B, Hn. unfold token_entry, entry_out in *. cbn [children] in A. rewrite A. reflexivity.
+Qed.
+
+Definition esort_ok (ind : indentation) (iel : bool) (mll : option N) (esort : option (tree -> tree -> comparison)) : Prop :=
+  match esort with
+  | Some e => cmp_consistent e /\
+              (forall a b, entry_ok ind a = true -> entry_ok ind b = true -> e (e_out ind iel mll a) (e_out ind iel mll b) = e a b)
+  | None => True
+  end.
+
+Theorem p_out_idem ind iel mll esort cs : forallb (pchild_ok ind) cs = true -> esort_ok ind iel mll esort ->
+  forallb (pchild_ok ind) (p_out ind iel mll esort cs) = true /\
+  p_out ind iel mll esort (p_out ind iel mll esort cs) = p_out ind iel mll esort cs.
+Proof.
+  intros H Hes. destruct (p_groups_props ind cs [] H eq_refl) as [Hg Htr]. unfold p_out at 1 3 4.
+  destruct (p_groups cs []) as [gs tr]. cbn [fst snd] in *.
+  set (L := sort_opt (option_map on_snd esort) gs).
+  assert (HL : forall g, In g L -> forallb loose (fst g) = true /\ entry_ok ind (snd g) = true /\ loose (snd g) = false)
+    by (intros g Hin; apply Hg; apply (sort_opt_In _ _ _ Hin)).
+  set (G := map (fun g => (fst g, e_out ind iel mll (snd g))) L).
+  assert (HG : forall g, In g G -> group_ok g /\ entry_ok ind (snd g) = true /\ e_out ind iel mll (snd g) = snd g).
+  { intros g' Hg'. apply in_map_iff in Hg'. destruct Hg' as (g & <- & Hin). destruct (HL g Hin) as (H1 & H2 & _). cbn [fst snd].
+    destruct (e_out_idem ind iel mll (snd g) H2) as [A B]. split; [split; [exact H1|reflexivity]|split; [exact A|exact B]]. }
+  split.
+  - unfold p_ungroup. rewrite forallb_app. apply andb_true_iff. split.
+    + rewrite forallb_forall. intros x Hx. apply in_concat in Hx. destruct Hx as (l & Hl & Hx). apply in_map_iff in Hl. destruct Hl as (g & <- & Hg').
+      destruct (HG g Hg') as ([P1 _] & P2 & _). apply in_app_or in Hx. destruct Hx as [Hx|[<-|[]]].
+      * rewrite forallb_forall in P1. unfold pchild_ok. rewrite (P1 x Hx). reflexivity.
+      * unfold pchild_ok. rewrite P2. apply orb_true_r.
+    + rewrite forallb_forall in *. intros x Hx. unfold pchild_ok. rewrite (Htr x Hx). reflexivity.
+  - unfold p_out. rewrite (p_groups_ungroup G tr [] (fun g Hg' => proj1 (HG g Hg')) Htr).
+    assert (E : (match G with [] => ([], [] ++ tr) | g :: r => (([] ++ fst g, snd g) :: r, tr) end) = (G, tr))
+      by (destruct G as [|g r]; [reflexivity|destruct g; reflexivity]).
+    rewrite E. cbn [fst snd].
+    assert (Hs : sort_opt (option_map on_snd esort) G = G).
+    { apply sort_opt_sorted. destruct esort as [e|]; cbn [option_map]; [|exact I]. destruct Hes as [Hc Hi].
+      assert (HsL : lsorted (on_snd e) L) by (unfold L; cbn [option_map sort_opt]; apply sort_by_lsorted; intros a b Hab; apply Hc; exact Hab).
+      unfold G. revert HsL HL. generalize L as l. induction l as [|x r IH]; intros Hs HL'; [exact I|].
+      cbn [lsorted map] in *. destruct Hs as [Hx Hr]. split; [|apply IH; [exact Hr|intros g Hin; apply HL'; right; exact Hin]].
+      destruct r as [|y r']; [exact I|]. cbn [map]. unfold le_cmp, gtb, on_snd in *. cbn [snd].
+      rewrite (Hi (snd x) (snd y)); [exact Hx|apply (HL' x (or_introl eq_refl))|apply (HL' y (or_intror (or_introl eq_refl)))]. }
+    rewrite Hs. f_equal. rewrite <- (map_id G) at 2. apply map_ext_in. intros g Hg'. destruct (HG g Hg') as (_ & _ & B). rewrite B. destruct g; reflexivity.
+Qed.
